@@ -22,6 +22,7 @@ import (
 	gcmn "github.com/dappledger/AnnChain/gemmill/modules/go-common"
 	flow "github.com/dappledger/AnnChain/gemmill/modules/go-flowrate/flowrate"
 	log "github.com/dappledger/AnnChain/gemmill/modules/go-log"
+	"github.com/dappledger/AnnChain/gemmill/modules/verifhook"
 	"github.com/dappledger/AnnChain/gemmill/types"
 	"go.uber.org/zap"
 )
@@ -167,6 +168,7 @@ func (pool *BlockPool) IsCaughtUp() bool {
 // So we peek two blocks at a time.
 // The caller will verify the commit.
 func (pool *BlockPool) PeekTwoBlocks() (first *types.Block, second *types.Block) {
+	defer verifhook.Point("blockchain.PeekTwoBlocks") // verif hook (no-op without the tag): runs after the unlock, before the caller judges what it peeked
 	pool.mtx.Lock()
 	defer pool.mtx.Unlock()
 
